@@ -306,6 +306,91 @@ func c06Filter(o *hx.Out, r *hx.Rng, n int, depth int) error {
 	return nil
 }
 
+// c06Consult reads everything out of a Match that was obtained earlier and
+// emits it as a kind-3 case for res alone.
+func c06Consult(o *hx.Out, q string, m benchproc.Match, res, before *benchfmt.Result, in c06Input, how string) {
+	n := len(res.Values)
+	matched, nm := c06Matched(m, n)
+	oob := !m.Test(-1) && !m.Test(n) && !m.Test(n+31) && !m.Test(n+64)
+	all, any := m.All(), m.Any()
+	app := c06Clone(res)
+	ret := m.Apply(app)
+	var rem []hx.Sx
+	for _, v := range app.Values {
+		rem = append(rem, hx.I(int(v.Value)))
+	}
+	unchanged := c06Same(before, res)
+	name, cfgs, units := c06ResSx(res)
+	c := hx.L(hx.I(3), hx.S(q), c07Oracle(q), c07ParseFilter(q), name, cfgs, units, c06ReTable(q, res),
+		matched, hx.Bool(oob), hx.Bool(all), hx.Bool(any), hx.Bool(ret), hx.List(rem), hx.Bool(unchanged))
+	kind := "some"
+	if nm == 0 {
+		kind = "none"
+	} else if nm == n {
+		kind = "all"
+	}
+	o.Count(fmt.Sprintf("seq %s matched=%s", how, kind))
+	in.Kind, in.Filter = "sequence:"+how, q
+	o.Add(c, in, "S"+how+q+"\x00"+in.Name+fmt.Sprint(n, in.Units), nm != 0 && nm != n)
+}
+
+// c06Seq: one Filter, Match(A), then Match / Apply on another result B (other
+// units, other n), and only then A's Match is consulted; likewise B's.
+func c06Seq(o *hx.Out, r *hx.Rng, nA, nB int) error {
+	A, inA := c06Result(r, nA)
+	B, inB := c06Result(r, nB)
+	cands := append(c06Candidates(A), c06Candidates(B)...)
+	// units last, as c06Term expects
+	for _, v := range A.Values[:min(2, len(A.Values))] {
+		cands = append(cands, v.Unit)
+	}
+	for _, v := range B.Values[:min(2, len(B.Values))] {
+		cands = append(cands, v.Unit, v.OrigUnit)
+	}
+	q := c06Expr(r, r.Range(0, 3), cands)
+	if !strings.Contains(q, ".unit") {
+		q = r.Pick([]string{"", "-"}) + ".unit:" + strconv.Quote(cands[len(cands)-1-r.Intn(3)]) + r.Pick([]string{" ", " OR ", " AND "}) + "(" + q + ")"
+	}
+	flt, err := benchproc.NewFilter(q)
+	if err != nil {
+		return fmt.Errorf("generated filter %q rejected: %v", q, err)
+	}
+	beforeA, beforeB := c06Clone(A), c06Clone(B)
+	mA, err := flt.Match(A)
+	if err != nil {
+		return err
+	}
+	how := ""
+	var mB benchproc.Match
+	haveB := false
+	switch r.Intn(4) {
+	case 0:
+		how = "match-other"
+		mB, _ = flt.Match(B)
+		haveB = true
+	case 1:
+		how = "apply-other"
+		flt.Apply(c06Clone(B))
+	case 2:
+		how = "match-other-twice"
+		mB, _ = flt.Match(B)
+		haveB = true
+		C, _ := c06Result(r, []int{nA, nB}[r.Intn(2)])
+		flt.Match(C)
+		flt.Apply(C)
+	default:
+		how = "match-other-then-same"
+		mB, _ = flt.Match(B)
+		haveB = true
+		flt.Match(c06Clone(A))
+	}
+	c06Consult(o, q, mA, A, beforeA, inA, how)
+	if haveB {
+		c06Consult(o, q, mB, B, beforeB, inB, how+"/second")
+	}
+	return nil
+}
+
 var c06Projs = []string{
 	".fullname@(X Y)", ".fullname@(Fib X/k=1)", "/k", "/k@(1 2)", "/k@(2)", ".name@(Fib X)", ".name", "goos@(linux darwin)",
 	"goos@(x)", "pkg", ".fullname", "/gomaxprocs@(8 4)", "/gomaxprocs", "/j@(a)", `"a b"@("x y")`, ".config", ".fullname@(\"*\" \"*/k=1\")",
@@ -368,7 +453,7 @@ func c06Fixed(o *hx.Out, r *hx.Rng, n int) error {
 }
 
 func genC06(o *hx.Out, r *hx.Rng, tier string, replay string) error {
-	o.Rule = "filter expressions generated from the grammar (terms key:value / key:(v OR v) / -term / (expr) / *, AND by juxtaposition or keyword, OR; keys .name .fullname /k /gomaxprocs file keys quoted keys .unit; values literal, quoted, regexp) up to depth 5, evaluated on results with n in {1,2,31,32,33,63,64,65,130} measurements with base and written units; fixed-list projections (1-3 Parse calls on one parser, incl. .fullname next to /k) wrapping such filters. non-trivial = some but not all measurements match (filters)"
+	o.Rule = "sequences on ONE Filter: Match(A), then Match/Apply of another result B (other units, other n), then A's (and B's) Match consulted (Test all i, All, Any, Match.Apply) and judged on that result alone; " + "filter expressions generated from the grammar (terms key:value / key:(v OR v) / -term / (expr) / *, AND by juxtaposition or keyword, OR; keys .name .fullname /k /gomaxprocs file keys quoted keys .unit; values literal, quoted, regexp) up to depth 5, evaluated on results with n in {1,2,31,32,33,63,64,65,130} measurements with base and written units; fixed-list projections (1-3 Parse calls on one parser, incl. .fullname next to /k) wrapping such filters. non-trivial = some but not all measurements match (filters)"
 	ns := []int{1, 2, 31, 32, 33, 63, 64, 65, 130}
 	per := 110
 	perFixed := 60
@@ -378,6 +463,22 @@ func genC06(o *hx.Out, r *hx.Rng, tier string, replay string) error {
 	for _, n := range ns {
 		for i := 0; i < per; i++ {
 			if err := c06Filter(o, r, n, r.Range(0, 5)); err != nil {
+				return err
+			}
+		}
+	}
+	seqN := []int{1, 2, 31, 32, 33, 63, 64, 65, 130}
+	perSeq := 40
+	if tier == "thorough" {
+		perSeq = 600
+	}
+	for _, nA := range seqN {
+		for i := 0; i < perSeq; i++ {
+			nB := seqN[r.Intn(len(seqN))]
+			if r.Chance(0.3) {
+				nB = nA
+			}
+			if err := c06Seq(o, r, nA, nB); err != nil {
 				return err
 			}
 		}
